@@ -83,8 +83,9 @@ func newPkg(pkg *packages.Package, u *Universe) Package {
 		signatures: make(map[*types.Signature]ast.Node),
 	}
 
-	for pkgPath := range pkg.Imports {
-		p.imports[pkgPath] = u.Package(pkgPath)
+	for importPath, imported := range pkg.Imports {
+		// packages are registered by their own path, which is not the import path for vendored packages of std
+		p.imports[importPath] = u.Package(imported.PkgPath)
 	}
 
 	fileLineFor := func(pos token.Pos, deltaLine int) fileLine {
